@@ -490,17 +490,21 @@ def timezone_name(dt, version=LATEST_VER):
         pass
 
     # Hard case, try to find one that's equivalent.  Hopefully we don't get
-    # many of these.  Start by getting the current timezone offset, and a
-    # timezone-naïve copy of the timestamp.
+    # many of these.  Start by getting the current timezone offset.
     offset  = dt.utcoffset()
-    dt_notz = dt.replace(tzinfo=None)
 
     if offset == datetime.timedelta(0):
         # UTC?
         return 'UTC'
 
     for olson_name, haystack_name in list(tz_rmap.items()):
-        if pytz.timezone(olson_name).utcoffset(dt_notz) == offset:
+        # Compare offsets at the instant (not at the naive wall time, which
+        # may be ambiguous or non-existent in the candidate zone).
+        try:
+            candidate = dt.astimezone(pytz.timezone(olson_name))
+        except OverflowError:
+            continue
+        if candidate.utcoffset() == offset:
             return haystack_name
 
     raise ValueError('Unable to get timezone of %r' % dt)
